@@ -378,8 +378,13 @@ def clause_e(repo, chk):
             elif isinstance(st, ast.Assign) and len(st.targets) == 1 and isinstance(st.targets[0], ast.Name):
                 pairs = [(st.targets[0], st.value)]
             for t, v in pairs:
-                if isinstance(t, ast.Name) and isinstance(v, ast.Call) and v.args and isinstance(v.args[0], ast.Name) and v.args[0].id in integ:
-                    vmap[t.id] = v.args[0].id
+                if isinstance(t, ast.Name) and isinstance(v, ast.Call):
+                    # tf.Variable(int_X, ...) / tf.Variable(initial_value=int_X, ...) / tf.constant(int_X): the wrapped name
+                    cand = [a_ for a_ in list(v.args[:1]) + [k_.value for k_ in v.keywords if k_.arg in ("initial_value", "value")] if isinstance(a_, ast.Name) and a_.id in integ]
+                    if cand:
+                        vmap[t.id] = cand[0].id
+                elif isinstance(t, ast.Name) and isinstance(v, ast.Name) and v.id in integ:
+                    vmap[t.id] = v.id
         prob = m.funcs.get(f.qual + ".prob")
         if prob is None or not integ or not vmap:
             continue
@@ -393,6 +398,21 @@ def clause_e(repo, chk):
             else:
                 terms.append(e)
 
+        # single-use temporaries of prob (sig_x = self.sig(x)) are looked through
+        pdefs = {}
+        for st_ in walk_local(prob.node):
+            if isinstance(st_, ast.Assign) and len(st_.targets) == 1 and isinstance(st_.targets[0], ast.Name):
+                pdefs.setdefault(st_.targets[0].id, []).append(st_.value)
+        pdefs = {k: v[0] for k, v in pdefs.items() if len(v) == 1}
+
+        class _Inl(ast.NodeTransformer):
+            def visit_Name(self, node):
+                if isinstance(node.ctx, ast.Load) and node.id in pdefs:
+                    return self.visit(ast.parse(ast.unparse(pdefs[node.id]), mode="eval").body)
+                return node
+
+        for _ in range(3):
+            ret = _Inl().visit(ast.parse(ast.unparse(ret), mode="eval").body)
         split(ret)
         xname = prob.params[0]
         mc_param = f.params[2] if len(f.params) > 2 else None  # (self, data, mcdata, ...)
